@@ -464,6 +464,9 @@ def violation(prop, path):
 
 
 # --------------------------------------------------------------------------- replay of a state graph
+last_notes = []   # records of kind "note" of the last replay() calls (harness observations that are not deviations)
+
+
 def replay(graph, binaries, workdir, env=None, shards=4, banned=frozenset(), timeout=1100, max_edges_per_state=None,
            rnd=None, ban_ops=frozenset(), walks=0, walk_len=0):
     """Run every behaviour of the path cover of `graph` through each harness binary.
@@ -495,4 +498,6 @@ def replay(graph, binaries, workdir, env=None, shards=4, banned=frozenset(), tim
                 devs.append(rec)
             elif k == "crash":
                 crashes.append(rec)
+            elif k == "note":
+                last_notes.append(rec)
     return summaries, devs, crashes, nb
